@@ -2,7 +2,7 @@
    step by step for the operations that fill or carry caches; natural parameters never depend on
    update_full or on earlier read-only queries; a cached value is THE value. *)
 From mathcomp Require Import all_ssreflect all_algebra.
-From GT Require Import Tensor DetExec LogDom Obj Factor Measure Pdf Cond EvalLemmas Spec C01_proofs PdfLemmas C04_proofs C05_proofs C06_proofs C0809_proofs C1013_proofs.
+From GT Require Import Tensor DetExec LogDom Obj Factor Measure Pdf Cond EvalLemmas Spec C01_proofs PdfLemmas C04_proofs C05_proofs C06_proofs C0809_proofs C1013_proofs C12_proofs C15_proofs C07_proofs C04_prog.
 Import GRing.Theory Num.Theory.
 Local Open Scope ring_scope.
 
@@ -57,7 +57,26 @@ Proof. by move=> H1 H2 H3; have [] := condition_on_explicit_ok H1 H2 H3. Qed.
 Theorem C04_conditional_transformation (c : cond LS) (p : measure LS) :
   pdf_ok p -> cond_ok c -> cDx c = uD p -> post_pos c p -> cond_ok (affine_conditional c p).
 Proof. by move=> H1 H2 H3 H4; have [] := affine_conditional_ok H1 H2 H3 H4. Qed.
+
+(* INDUCTION OVER PROGRAMS (proofs/C04_prog.v): `prog` = finite sequences of multiply / hadamard / slice / product /
+   normalize on a measure with read-only queries (integrate, log_integral_light, get_density, evaluate) interleaved
+   arbitrarily; `ok p` collects the library's own input requirements along the program (well-formed factors,
+   positive determinants, broadcastable batches, indices in range).  Every reachable object is consistent, for
+   programs of ANY length, and erasing all queries does not change what the result evaluates to. *)
+Theorem C04_every_reachable_object_consistent (p : prog LS) : ok p -> cache_ok (eval p).
+Proof. exact: eval_cache_ok. Qed.
+Theorem C04_queries_transparent (p : prog LS) : ok p -> ok (erase p) ->
+  uR (eval p) = uR (eval (erase p)) /\ uD (eval p) = uD (eval (erase p)) /\
+  forall r x, (r < uR (eval p))%N -> ueval (eval p) r x = ueval (eval (erase p)) r x.
+Proof. exact: queries_transparent. Qed.
+(* the joint transformation returns a consistent density (C07) *)
+Theorem C04_joint_transformation (c : cond LS) (p : measure LS) :
+  pdf_ok p -> cond_ok c -> cDx c = uD p -> pdf_ok (affine_joint c p).
+Proof. exact: affine_joint_ok. Qed.
 End C04.
+Print Assumptions C04_every_reachable_object_consistent.
+Print Assumptions C04_queries_transparent.
+Print Assumptions C04_joint_transformation.
 Print Assumptions C04_queries.
 Print Assumptions C04_multiply.
 Print Assumptions C04_hadamard.
